@@ -330,3 +330,26 @@ def main(chk):
                      'a wall-clock watchdog firing twice is reported inconclusive, never as a violation',
                      'inputs inside a masked sub-space (see masks) are not run in the randomized workload; fixed shapes cover them'],
         extra=extra)
+
+
+def replay(chk, d):
+    """./check C06 --replay <replay dir>: re-run the saved witness through the same runner and oracle."""
+    import json
+    with open(os.path.join(d, 'case.json')) as f:
+        case = json.load(f)
+    info = case.get('case', {})
+    with open(os.path.join(d, 'in.exp'), 'rb') as f:
+        data = f.read()
+    R.tools_dir()
+    c = R.Case(data, info.get('tool', 'check-express'), info.get('op', 'replay'), info.get('construct', 'witness'), args=info.get('args', ()))
+    R.run_cases([c])
+    chk.ev()
+    chk.seen(c.op, c.construct, c.tool, outcome_class(c))
+    chk.seen('replay', d)
+    chk.sample(dict(tool=c.tool, args=list(c.args), outcome=outcome_class(c), exit=c.r.rc, steps=c.r.steps, stderr_tail=c.r.err[-1500:]))
+    print('replay: %s %s -> %s (exit %s, signal %s, steps %s)' % (c.tool, ' '.join(c.args), c.symptom or 'no symptom', c.r.rc, c.r.sig, c.r.steps))
+    if c.symptom == 'timeout':
+        chk.inconc('watchdog fired')
+    elif c.symptom:
+        chk.violation(c.key(), '%s -> %s at %s; stderr tail: %s' % (c.tool, c.symptom, R.signature(c.r), c.r.err[-600:]), {'in.exp': data})
+    return chk.finish(rule='replay of one saved witness', assumptions=['same runner and oracle as the full check'])
